@@ -277,7 +277,10 @@ func runOne(ctx *runCtx, h HSpec) *hResult {
 	s := engine.NewSolver(pick(h.Timeout, ctx.tier, defTimeout))
 	s.CrossCheck = false
 	defer s.Close()
-	cfg := engine.Config{Tier: ctx.tier, MapPerms: h.Perms, MaxStrLen: pick(h.MaxStrLen, ctx.tier, 8)}
+	cfg := engine.Config{Tier: ctx.tier, MapPerms: h.Perms, MaxStrLen: pick(h.MaxStrLen, ctx.tier, 8), MaxWallS: 900}
+	if ctx.tier == "thorough" {
+		cfg.MaxWallS = 5400
+	}
 	m := engine.NewMachine(ctx.prog.Prog, s, cfg, nil)
 	func() {
 		defer func() {
